@@ -90,6 +90,7 @@ def run(rep, tier):
                      "S(A|B) = S(A) u S(B); S(A-B) = S(A) \\ S(B) and EmptyClassException iff empty; S(~A) = U \\ S(A), ~~A = A; "
                      "negated classes: the same on the excluded sets; results compile")
     rep.trusted += ["R7 bracket expressions", "E3 characters as code points, E6 lists as maps, E7 sets as lists in arbitrary order",
-                    "assumed contract of __split_range ('a-z' -> ['a','z']); bounded-checked by B2/B3",
+                    "contracts of __split_range / __modify_classes / __verbose_to_shorthand as used by the VCs: decided completely by F2 (data independence; the body forms are compared each run)",
+                    "assumed: __extract_classes tokenises a bracket text into its items; printing escaped items between brackets lists what they denote (R7); end to end: B2/B3",
                     "z3 5.1 / 4.8 (quantified views: sets as predicates with triggers; equalities proved as two skolemised inclusions)"]
     rep.assumptions += ["code points that only the Unicode-aware shorthands add are left unspecified (masked)"]
